@@ -624,10 +624,20 @@ Proof.
 Qed.
 
 (* what cache.Get does without faults *)
-Definition loaded (s : st) (k : key) (r : rec) (es : list ev) : st :=
+(* Sealed (opaque to conversion; use loaded_eq): the bodies contain compact, and
+   failing conversion checks between such states are very expensive. *)
+Definition loaded_body (s : st) (k : key) (r : rec) (es : list ev) : st :=
   let s1 := fst (halloc (set_evs s (es ++ evs s)) (mkObj k r)) in
   if (c_maxcache (conf s) =? 0)%Z then s1
   else set_cache (compact s1 1) (upsert (cache (compact s1 1)) k (length (heap s))).
+Definition loaded_sig s k r es : {s' : st | s' = loaded_body s k r es}.
+Proof. exists (loaded_body s k r es). reflexivity. Qed.
+Definition loaded (s : st) (k : key) (r : rec) (es : list ev) : st := proj1_sig (loaded_sig s k r es).
+Lemma loaded_eq s k r es : loaded s k r es =
+  let s1 := fst (halloc (set_evs s (es ++ evs s)) (mkObj k r)) in
+  if (c_maxcache (conf s) =? 0)%Z then s1
+  else set_cache (compact s1 1) (upsert (cache (compact s1 1)) k (length (heap s))).
+Proof. exact (proj2_sig (loaded_sig s k r es)). Qed.
 
 Lemma cache_get_ff s k : plan s = [] ->
   match lookup (cache s) k with
@@ -642,7 +652,7 @@ Lemma cache_get_ff s k : plan s = [] ->
 Proof.
   intro H. unfold cache_get. destruct (lookup (cache s) k) as [o|]; [reflexivity|].
   destruct (p_load_ff s k H) as [es [Hq E]]. exists es. split; [exact Hq|]. rewrite E.
-  destruct (lookup (store s) k) as [r|]; reflexivity.
+  destruct (lookup (store s) k) as [r|]; [rewrite loaded_eq|]; reflexivity.
 Qed.
 
 Lemma inv_loaded b base X D s k r es :
@@ -657,7 +667,7 @@ Proof.
   { apply inv_halloc; [apply inv_quiet; assumption | apply Hkr | apply Hkr]. }
   assert (H1 : hget s1 (length (heap s)) = Some (mkObj k r)).
   { unfold s1. rewrite hget_halloc. sst. rewrite Nat.eqb_refl. reflexivity. }
-  unfold loaded. fold s1. destruct (c_maxcache (conf s) =? 0)%Z; [split; assumption|].
+  rewrite loaded_eq. cbv zeta. fold s1. destruct (c_maxcache (conf s) =? 0)%Z; [split; assumption|].
   assert (F1 : ffnd s1) by (eapply inv_ffnd; exact I1).
   assert (H2 : hget (compact s1 1) (length (heap s)) = Some (mkObj k r)) by (rewrite hget_compact; assumption).
   split.
@@ -700,8 +710,13 @@ Definition cset_mid (s : st) (o : nat) (ob : obj) : st :=
   let s2 := compact s1 (if has (cache s1) (o_id ob) then 0 else 1)%Z in
   if (c_maxcache (conf s2) =? 0)%Z then s2 else set_cache s2 (upsert (cache s2) (o_id ob) o).
 
-Definition cset (s : st) (o : nat) (ob : obj) : st :=
+Definition cset_body (s : st) (o : nat) (ob : obj) : st :=
   saved (cset_mid s o ob) (o_id ob) (o_rec (touched s ob)).
+Definition cset_sig s o ob : {s' : st | s' = cset_body s o ob}.
+Proof. exists (cset_body s o ob). reflexivity. Qed.
+Definition cset (s : st) (o : nat) (ob : obj) : st := proj1_sig (cset_sig s o ob).
+Lemma cset_eq s o ob : cset s o ob = saved (cset_mid s o ob) (o_id ob) (o_rec (touched s ob)).
+Proof. exact (proj2_sig (cset_sig s o ob)). Qed.
 
 Lemma cset_mid_frame s o ob : ffnd s ->
   heap (cset_mid s o ob) = heap (hput s o (touched s ob)) /\ supply (cset_mid s o ob) = supply s /\
@@ -723,7 +738,7 @@ Proof.
           else set_cache (compact (hput s o (touched s ob)) (if has (cache (hput s o (touched s ob))) (o_id ob) then 0%Z else 1%Z))
                  (upsert (cache (compact (hput s o (touched s ob)) (if has (cache (hput s o (touched s ob))) (o_id ob) then 0%Z else 1%Z))) (o_id ob) o))
     with (cset_mid s o ob).
-  rewrite p_save_ff; [reflexivity|].
+  rewrite p_save_ff; [rewrite cset_eq; reflexivity|].
   destruct (cset_mid_frame s o ob F) as (_ & _ & _ & _ & _ & -> & _). apply F.
 Qed.
 
@@ -743,7 +758,7 @@ Proof.
     eapply (inv_cache_upsert _ _ _ _ _ _ _ (touched s ob)); [exact I2 | | reflexivity | exact Hbo | | exact HnD].
     - rewrite hget_compact by exact F1. apply hget_hput_same. eapply hget_Some_lt. exact Ho.
     - destruct (compact_frame _ req F1) as (_ & -> & _). exact Hk. }
-  unfold cset. apply inv_saved; [exact Imid | | | exact HnD].
+  rewrite cset_eq. apply inv_saved; [exact Imid | | | exact HnD].
   - destruct (cset_mid_frame s o ob (inv_ffnd _ _ _ _ _ I)) as (_ & -> & _). exact Hk.
   - destruct (cset_mid_frame s o ob (inv_ffnd _ _ _ _ _ I)) as (_ & -> & _). exact Hr.
 Qed.
@@ -751,7 +766,7 @@ Qed.
 Lemma hget_cset s o ob o' : ffnd s -> hget s o = Some ob ->
   hget (cset s o ob) o' = if Nat.eqb o o' then Some (touched s ob) else hget s o'.
 Proof.
-  intros F Ho. unfold cset, saved, hget. sst. destruct (cset_mid_frame s o ob F) as (-> & _).
+  intros F Ho. rewrite cset_eq. unfold saved, hget. sst. destruct (cset_mid_frame s o ob F) as (-> & _).
   fold (hget (hput s o (touched s ob)) o'). rewrite hget_hput. rewrite Ho. reflexivity.
 Qed.
 
@@ -760,7 +775,7 @@ Lemma cset_frame s o ob : ffnd s ->
   now (cset s o ob) = now s /\ plan (cset s o ob) = plan s /\ graves (cset s o ob) = graves s /\
   length (heap (cset s o ob)) = length (heap s).
 Proof.
-  intro F. unfold cset, saved. sst. destruct (cset_mid_frame s o ob F) as (Hh & -> & -> & -> & -> & -> & ->).
+  intro F. rewrite cset_eq. unfold saved. sst. destruct (cset_mid_frame s o ob F) as (Hh & -> & -> & -> & -> & -> & ->).
   repeat split. rewrite Hh. unfold hput. sst. apply replace_nth_length.
 Qed.
 
@@ -890,7 +905,7 @@ Proof. intros I k o Hl. destruct (i_cok _ _ _ _ _ I k o Hl) as [ob [Ho _]]. cong
 Lemma cset_cache_own b base X D s o ob o' :
   inv b base X D s -> hget s o = Some ob -> lookup (cache (cset s o ob)) (o_id ob) = Some o' -> o' = o.
 Proof.
-  intros I Ho Hl. unfold cset, saved in Hl. sst. unfold cset_mid in Hl.
+  intros I Ho Hl. rewrite cset_eq in Hl. unfold saved in Hl. sst. unfold cset_mid in Hl.
   set (s1 := hput s o (touched s ob)) in *.
   set (req := (if has (cache s1) (o_id ob) then 0 else 1)%Z) in *.
   assert (I1 : inv b base X D s1).
